@@ -113,10 +113,19 @@ func startSim() *simulator {
 			if err != nil {
 				return
 			}
-			s.mu.Lock()
-			s.canary++
-			s.mu.Unlock()
-			c.Close()
+			// a TLS ClientHello (first byte 0x16) is servitor trying https on this port: not plaintext
+			go func(c net.Conn) {
+				defer c.Close()
+				c.SetReadDeadline(time.Now().Add(2 * time.Second))
+				one := make([]byte, 1)
+				n, _ := c.Read(one)
+				if n == 1 && one[0] == 0x16 {
+					return
+				}
+				s.mu.Lock()
+				s.canary++
+				s.mu.Unlock()
+			}(c)
 		}
 	}()
 	return s
